@@ -1,7 +1,7 @@
 """C19 - channel helpers never lose, duplicate or invent a value (DESIGN.md section 7-C19)."""
 from ..core import *
 
-CLAUSES = ["I_NoPanic", "I_NeverBlocks", "I_Queued", "I_QueuedPending", "I_Outcome", "I_SendConserve", "I_RecvConserve", "I_Unlimited", "I_RecvRace", "I_SendRace", "I_CloseRace"]
+CLAUSES = ["I_NoPanic", "I_NeverBlocks", "I_Queued", "I_QueuedPending", "I_Outcome", "I_SendConserve", "I_RecvConserve", "I_Unlimited", "I_RecvRace", "I_SendRace", "I_CloseRace", "I_SendDeadline"]
 
 
 def check(run):
@@ -69,12 +69,15 @@ def check(run):
     with ThreadPoolExecutor(max_workers=12) as ex:
         parts = list(ex.map(lambda ch: run_driver(run, "chans", ch, timeout=600) if ch else [], chunks))
     evq = run_driver(run, "chans", plan, timeout=600)
-    evs = evq + [e for p in parts for e in p]
-    plans = plan + [t for ch in chunks for t in ch]
+    # the hand-over-at-the-deadline rounds keep every processor busy on purpose: run alone, after everything that relies on timers
+    solo = [dict(op="SendDeadlineRace", cap=0, fill=0, closed=False, limit=0, pending=0, rounds=(400 if q else 3000)) for _ in range(2)]
+    evsolo = run_driver(run, "chans", solo, timeout=600)
+    evs = evq + [e for p in parts for e in p] + evsolo
+    plans = plan + [t for ch in chunks for t in ch] + solo
     segs = [[e] for e in evs]
     validate(run, "chans", "ChanAbsTrace", {}, segs, CLAUSES, plans=[[p] for p in plans])
     for r in run.rejections:
-        if r["segment"] and r["segment"][-1].get("op") in ("RecvRace", "SendRace"):
+        if r["segment"] and r["segment"][-1].get("op") in ("RecvRace", "SendRace", "SendDeadlineRace", "RecvCloseRace"):
             r["fact"] = True      # a free-running race of real goroutines: the recorded execution happened; it need not recur
     run.cov.update(queued_cells=len(plan), timed_scenarios=len(timed), exhaustive=False,
                    distinct_nontrivial=distinct_count(segs, lambda s: True),
